@@ -608,12 +608,21 @@ class UCSolutionEnumerator():
                 # though, so we can only perform this filtering for a derived factor that does
                 # not depend on a complex-window derived factor.
                 merged_levels = {**ci, **sc}
+                def level_of(f):
+                    # An argument that is neither crossed nor basic is a within-trial derived
+                    # factor: its level follows from its own arguments
+                    if f not in merged_levels:
+                        for l in f.levels:
+                            if l.window.predicate(*[level_of(af).name for af in l.window.factors]):
+                                merged_levels[f] = l
+                                break
+                    return merged_levels[f]
                 for df in self._partitions.get_crossed_noncomplex_derived_factors():
                     # Not yet separating complex:
                     # assert not df.has_complex_window
-                    if not df.has_complex_window:
+                    if not df.has_complex_window and not any(af.has_complex_window for af in df.levels[0].window.factors):
                         w = merged_levels[df].window
-                        if not w.predicate(*[(merged_levels[f]).name for f in w.factors]):
+                        if not w.predicate(*[level_of(f).name for f in w.factors]):
                             sc_indices.remove(sc_idx)
                             # one mismatch is enough to rule out this source combination
                             break
